@@ -128,6 +128,17 @@ NUMS = [0, 1, -1, 2, 2.5, -2.5, 0.0045, 1.005, 10, 1e15, 2 ** 53 + 1, -0.0, 1e16
         0.1 + 0.2, 1 / 3, 2.0, -7.0, 1e15 + 0.5, 999999999999999.9, float('inf'), float('-inf'), float('nan')]
 TEXTS = ['', 'a', 'abc', 'ABC', 'a?c', 'a*', '~*x', '10', '1.5', 'nan', 'x[1]', '2024-01-31', '31/01/2024', '12:30', '5%', '1 234,5', 'a.b', '(a)']
 DATES = [dt.datetime(2024, 1, 31), dt.datetime(2024, 2, 29), dt.datetime(2023, 12, 31, 23, 59), dt.datetime(2020, 2, 29), dt.datetime(2024, 3, 1)]
+SPAN = [dt.datetime(2024, 1, 1) + dt.timedelta(days=d) for d in (0, 4, 5, 6, 7, 13, 30, 59, 60, 61, 90)]
+
+
+def holidays(rng):
+    """a holiday range as the generated code hands it over: rows of 1-2 cells, dates of a few weeks (working days and weekends),
+    the same date possibly listed more than once, a blank / text cell now and then"""
+    pool = [dt.datetime(2024, 1, 1) + dt.timedelta(days=rng.randrange(0, 70)) for _ in range(4)]
+    w = rng.choice([1, 1, 2])
+    return [[rng.choice(pool + ([B, 'x'] if rng.random() < 0.2 else [])) for _ in range(w)] for _ in range(rng.randrange(1, 7))]
+
+
 COL = [[1], [3], [3], [7], [B], ['x']]
 ROW = [[1, 3, 3, 7, 9, 'x']]          # a horizontal range arrives as ONE row
 ROW2 = [[10, 20, 30, 40, 50]]
@@ -146,7 +157,7 @@ def synth(name, rng, n):
         '_date': lambda: (P([1900, 2024, 99, -1, 10000, '2024', 'x']), P([-13, 0, 1, 2, 12, 13, 25, '3']), P([-400, -1, 0, 1, 28, 31, 32, 366, '5'])),
         '_datedif': lambda: (P(DATES + [1]), P(DATES + ['x']), P(['Y', 'M', 'D', 'MD', 'YM', 'YD', 'Q'])),
         '_edate': lambda: (P(DATES + [5]), P([-14, -1, 0, 1, 1.9, 13, 'x'])), '_eomonth': lambda: (P(DATES + [5]), P([-14, -1, 0, 1, 1.9, 13])),
-        '_network_days': lambda: (P(DATES + [1]), P(DATES), P([None, [[DATES[0]], [B], ['x']], [[DATES[1], DATES[4]]]])),
+        '_network_days': lambda: (P(DATES + SPAN + [1]), P(DATES + SPAN), P([None, [[DATES[0]], [B], ['x']], [[DATES[1], DATES[4]]], holidays(rng), holidays(rng)])),
         '_left': lambda: (P(TEXTS), P([None, -1, 0, 1, 2, 10])), '_right': lambda: (P(TEXTS), P([None, -1, 0, 1, 2, 10])),
         '_mid': lambda: (P(TEXTS), P([-1, 0, 1, 2, 5]), P([-1, 0, 1, 3])),
         '_search': lambda: (P(['a', 'B', 'b?', '*c', '~*', 'x[', '.', '', 'C*']), P(TEXTS), P([None, 0, 1, 2, 9])),
